@@ -16,6 +16,11 @@ from harness.c10 import parse_children, spec_names
 from harness.common import cstr, clist, cbool
 
 FOREIGN = "zzForeign"
+
+
+def fresh(s):
+    """a NEW str object equal to s (never an interned/shared constant): `is` vs `==` slips must show"""
+    return "".join(list(s)) if s else s
 MIXED = ("textRule", "anyNameRule", "paraRule", "subscriptRule", "superscriptRule")
 HEADER = ("From MP Require Import Common.Base Gen.Tables Model.Rule Model.Insert.\n")
 CHILD_CODES = {"CHILD_NOT_ALLOWED", "MIN_OCCURRENCE_UNMET", "MAX_OCCURRENCE_EXCEEDED", "MIN_CHOICE_UNMET", "MAX_CHOICE_EXCEEDED"}
@@ -149,11 +154,11 @@ def impl_queries(rname, alphabet, words, cands):
     except Exception:  # noqa
         return [-3] * (len(words) * len(cands)), [None] * len(cands)
     codes = []
-    news = [Node(alphabet[x]) for x in cands]
+    news = [Node(fresh(alphabet[x])) for x in cands]
     for w in words:
         parent = Node("parent")
         for c in w:
-            parent.add_child(Node(alphabet[c]))
+            parent.add_child(Node(fresh(alphabet[c])))
         for new in news:
             try:
                 k = r.child_insert_index(parent, new)
@@ -167,7 +172,7 @@ def impl_queries(rname, alphabet, words, cands):
     allowed = []
     for x in cands:
         try:
-            a = r.is_allowed_child(alphabet[x])
+            a = r.is_allowed_child(fresh(alphabet[x]))
             allowed.append(a if isinstance(a, bool) else None)
         except Exception:  # noqa
             allowed.append(None)
@@ -187,16 +192,16 @@ def impl_queries_history(ctx, rname, alphabet, words, cands):
     except Exception:  # noqa
         return [-3] * (len(words) * len(cands)), [None] * len(words)
     codes, hists = [], []
-    news = [Node(alphabet[x]) for x in cands]
+    news = [Node(fresh(alphabet[x])) for x in cands]
     for w in words:
         parent = Node("parent")
-        kids = [Node(alphabet[c]) for c in w]
+        kids = [Node(fresh(alphabet[c])) for c in w]
         variant = ctx.rng.choice(["validated with one more child, then remove_child",
                                   "validated with one child less, then add_child",
                                   "validated with the same children"]) if w else "validated with one more child, then remove_child"
         extra = None
         if variant.startswith("validated with one more"):
-            extra = Node(alphabet[ctx.rng.randrange(len(alphabet))])
+            extra = Node(fresh(alphabet[ctx.rng.randrange(len(alphabet))]))
             pos = ctx.rng.randint(0, len(kids))
             for k in kids[:pos] + [extra] + kids[pos:]:
                 parent.add_child(k)
@@ -347,6 +352,89 @@ def random_spec(ctx, ok):
     return [["a", 0, None]]
 
 
+# ------------------------------------------------------------------ directed child sequences
+def _cap(ws, n=40):
+    out, seen = [], set()
+    for w in ws:
+        if tuple(w) not in seen:
+            seen.add(tuple(w))
+            out.append(w)
+        if len(out) >= n:
+            break
+    return out
+
+
+def variants(sp, mixed):
+    """a bounded set of words meant to be valid for sp, richer than the shortest one: optional items
+    present, repeats, and — for a repeatable choice — its names interleaved NON-contiguously"""
+    if sp[0] == "el":
+        _, n, lo, hi = sp
+        ks = [lo, max(lo, 1), max(lo, 1) + 1, max(lo, 1) + 2]
+        return _cap([[n] * k for k in ks if hi is None or k <= hi])
+    if sp[0] == "seq":
+        items = sp[1]
+        mins = [min_word(i, mixed) for i in items]
+        vs = [variants(i, mixed) for i in items]
+        out = [[c for m in mins for c in m]]
+        for j in range(len(items)):
+            for v in vs[j]:
+                out.append([c for k, m in enumerate(mins) for c in (v if k == j else m)])
+        # a rich item together with one later item made non-empty
+        for j in range(len(items)):
+            for v in vs[j][-5:]:
+                for k in range(j + 1, len(items)):
+                    for u in [x for x in vs[k] if x][:2]:
+                        out.append([c for q, m in enumerate(mins) for c in (v if q == j else u if q == k else m)])
+        return _cap(out, 400)
+    _, alts, lo, hi = sp
+    out = [] if not (mixed or lo == 0) else [[]]
+    occ = [v for a in alts for v in variants(a, mixed) if v]
+    if hi == 1:
+        return _cap(out + occ)
+    singles = [v for v in occ if len(v) == 1][:3] or occ[:3]
+    pats = [[0], [0, 1], [0, 1, 0], [1, 0, 1], [0, 0, 1, 0], [0, 1, 0, 1], [0, 1, 2, 0], [0, 1, 2, 1, 0], [0, 0], [0, 0, 0]]
+    for p in pats:
+        if max(p) < len(singles) and len(p) >= lo and (hi is None or len(p) <= hi):
+            out.append([c for i in p for c in singles[i]])
+    return _cap(out + occ)
+
+
+def directed_words(ctx, sp, mixed, alphabet, cap):
+    """existing-children lists from valid rich words: the word itself and the word with one child
+    deleted (so that re-inserting it restores validity); as alphabet index lists"""
+    if sp is None:
+        return []
+    ix = {n: i for i, n in enumerate(alphabet)}
+    base = [u for u in variants(sp, mixed) if len(u) <= 9 and in_lang(sp, u, mixed)]
+    out, seen = [], set()
+    for u in base:
+        for w in [u] + [u[:i] + u[i + 1:] for i in range(len(u))]:
+            if len(w) >= 3 and tuple(w) not in seen:
+                seen.add(tuple(w))
+                out.append([ix[c] for c in w])
+    if len(out) > cap:
+        out = [out[i] for i in sorted(ctx.rng.sample(range(len(out)), cap))]
+    return out
+
+
+def long_words(sp, mixed, alphabet, n=260):
+    """existing-children lists with more than 256 children: a valid word in which one repeatable
+    name is repeated n times, itself and with one child deleted near the front / at the end"""
+    if sp is None:
+        return []
+    ix = {c: i for i, c in enumerate(alphabet)}
+    for name in spec_names(sp):
+        u = word_with(sp, name, mixed)
+        if name not in u:
+            continue
+        j = u.index(name)
+        big = u[:j] + [name] * n + u[j + 1:]
+        if in_lang(sp, big, mixed):
+            ws = [big, big[1:], big[:-1]]
+            return [[ix[c] for c in w] for w in ws]
+    return []
+
+
 # ------------------------------------------------------------------ the check
 def judge(ctx, rname, rj, sp, mixed, names, alphabet, words, cands, codes, allowed, insert_ok, do_validator, stats, label=None, hists=None):
     """(S) the statement itself on the implementation's answers."""
@@ -387,7 +475,14 @@ def judge(ctx, rname, rj, sp, mixed, names, alphabet, words, cands, codes, allow
                     ctx.fail(f"C17:order:{rname}", f"children were in the rule's declared order, inserting '{xn}' at the suggested index {k} breaks it",
                              dict(base, declared_order=names, result=res))
                     continue
-            valid = [i for i in range(len(wn) + 1) if in_lang(sp, wn[:i] + [xn] + wn[i:], mixed)]
+            if in_lang(sp, wn[:k] + [xn] + wn[k:], mixed):
+                valid = [k]                      # the suggestion is valid: nothing more to decide
+            else:
+                if len(wn) <= 40:
+                    positions = range(len(wn) + 1)
+                else:                            # long parents: run boundaries (a valid slot, if any, exists at one)
+                    positions = sorted({0, len(wn)} | {i for i in range(1, len(wn)) if wn[i] != wn[i - 1]})
+                valid = [i for i in positions if in_lang(sp, wn[:i] + [xn] + wn[i:], mixed)]
             if valid:
                 stats["restorable"] += 1
                 if k not in valid:
@@ -400,15 +495,16 @@ def judge(ctx, rname, rj, sp, mixed, names, alphabet, words, cands, codes, allow
                     stats["restorable from invalid"] += 1
             else:
                 stats["not restorable"] += 1
-            if do_validator and ctx.rng.random() < do_validator:
+            if do_validator and len(wn) <= 40 and ctx.rng.random() < do_validator:
                 stats["validator-judged"] += 1
                 vvalid = [i for i in range(len(wn) + 1) if validator_accepts_children(rname, rj, wn[:i] + [xn] + wn[i:])]
-                if vvalid != valid:
+                lvalid = [i for i in range(len(wn) + 1) if in_lang(sp, wn[:i] + [xn] + wn[i:], mixed)]
+                if vvalid != lvalid:
                     where = "shipped rule" if rname != "__v" else ("random rule, insert_ok" if insert_ok else "random rule outside insert_ok")
                     stats[f"validator and language membership differ ({where})"] += 1
                     if rname != "__v":
                         ctx.note(f"validator and brute-force language membership differ on shipped rule {rname}: children {wn} + {xn}: "
-                                 f"validator-valid positions {vvalid}, language-valid positions {valid}")
+                                 f"validator-valid positions {vvalid}, language-valid positions {lvalid}")
                 if vvalid and k not in vvalid and insert_ok:
                     ctx.fail(f"C17:restores-validator:{rname}", f"the validator accepts '{xn}' at {vvalid} but not at the suggested index {k}",
                              dict(base, valid_positions=vvalid, judged_by="Rule.validate_rule, child-related codes only"))
@@ -468,6 +564,8 @@ def run(ctx):
     nrand = 2000 if thorough else 300
     vrate = 0.05
     hmax = 400 if thorough else 120
+    dcap = 600 if thorough else 150
+    long_left = 30 if thorough else 5
     ctx.extra["rule"] = (f"every shipped rule x words of length <= {maxlen} over the rule's names + one foreign name (all of them when "
                          f"#words x #names <= {budget}, else all of length <= 1 + a seeded sample) x every name + one foreign name as the "
                          f"new child; {nrand} random rules (half satisfying insert_ok) x all words of length <= 3 over their names; "
@@ -487,6 +585,16 @@ def run(ctx):
         alphabet = list(dict.fromkeys(names)) + [FOREIGN]
         words, full = choose_words(ctx, len(alphabet), maxlen, budget)
         exhaustive += full
+        have = {tuple(w) for w in words}
+        dw = [w for w in directed_words(ctx, sp, rname in MIXED, alphabet, dcap) if tuple(w) not in have]
+        stats["directed words (valid rich word, one child deleted)"] += len(dw)
+        words = words + dw
+        if long_left > 0:
+            lw = long_words(sp, rname in MIXED, alphabet)
+            if lw:
+                long_left -= 1
+                stats["parents with more than 256 children"] += len(lw)
+                words = words + lw
         cands = list(range(len(alphabet)))
         codes, allowed = impl_queries(rname, alphabet, words, cands)
         # the property quantifies over every shipped rule: a missed restoration is a violation
@@ -519,6 +627,8 @@ def run(ctx):
             words = [list(w) for w in all_words(len(alphabet), 3)]
             if len(words) * len(alphabet) > 900:
                 words = [list(w) for w in all_words(len(alphabet) - 1, 3)] + [[len(alphabet) - 1], [0, len(alphabet) - 1]]
+            have = {tuple(w) for w in words}
+            words = words + [w for w in directed_words(ctx, sp, False, alphabet, 60) if tuple(w) not in have]
             cands = list(range(len(alphabet)))
             R.rules_dict["__v"] = rj
             codes, allowed = impl_queries("__v", alphabet, words, cands)
